@@ -73,6 +73,8 @@ func (cr *keyStore) load() error {
 
 	if len(cr.keyID) != 0 {
 		entry, err = ks.GetKey(cr.keyID)
+	} else if len(ks.Entries()) == 0 {
+		return errorchain.NewWithMessage(heimdall.ErrConfiguration, "no key material present in the key store")
 	} else {
 		entry, err = ks.Entries()[0], nil
 	}
